@@ -130,13 +130,240 @@ func init() {
 			}
 		}
 		sort.Strings(fields)
+		registry, err := c16Registry(e, p)
+		if err != nil {
+			return "", err
+		}
 		var b strings.Builder
 		b.WriteString(header("CliFlags", "/repo/cmd/minify/main.go (AddOpt calls) and the Minifier option structs"))
 		fmt.Fprintf(&b, "/-- `--flag=pkg.Field` for every CLI flag bound to a field of a library option struct -/\ndef flags : List String := %s\n\n", leanStrList(flags))
-		fmt.Fprintf(&b, "/-- exported fields of the six `Minifier` option structs -/\ndef optionFields : List String := %s\n", leanStrList(fields))
+		fmt.Fprintf(&b, "/-- exported fields of the six `Minifier` option structs -/\ndef optionFields : List String := %s\n\n", leanStrList(fields))
+		fmt.Fprintf(&b, "/-- the option-struct values of cmd/minify (`def id := …`; a copy is named after its origin and what is assigned to it) and the media types each is registered for (`reg key -> id`) -/\ndef registry : List String := %s\n", leanStrList(registry))
 		b.WriteString(footer("CliFlags"))
 		return b.String(), nil
 	})
+}
+
+// c16Registry: the variables of cmd/minify whose type is one of the library's `Minifier` option structs, and their
+// registrations with the minify.M registry (c16x: the template flavours must be copies of the html value the flags are bound
+// to, so that every --html-* flag reaches them).  Variables are named by what they are, not by how they are spelled:
+//   a value defined by a composite literal        <pkg>            (`def html := html.Minifier{}`)
+//   a value defined as a copy of another one      <origin>+F=v,…   with the fields assigned to it afterwards
+// registrations: calls of methods of minify.M (by object) whose second argument is (the address of) such a variable; the key
+// is the constant string, or `regexp "<pattern>"` for regexp.MustCompile(<constant>).
+func c16Registry(e *tenv, p *packages.Package) ([]string, error) {
+	info := p.TypesInfo
+	optPkg := func(t types.Type) string {
+		nt, ok := types.Unalias(t).(*types.Named)
+		if !ok || nt.Obj().Name() != "Minifier" || nt.Obj().Pkg() == nil {
+			return ""
+		}
+		for _, pk := range c16OptionPkgs {
+			if nt.Obj().Pkg().Path() == modPath+"/"+pk {
+				return pk
+			}
+		}
+		return ""
+	}
+	type optVar struct {
+		obj    *types.Var
+		pkg    string
+		def    ast.Expr
+		ndefs  int
+		mods   []string
+		id     string
+		parent *optVar
+	}
+	vars := map[types.Object]*optVar{}
+	var order []*optVar
+	get := func(id *ast.Ident) *optVar {
+		o := info.Defs[id]
+		if o == nil {
+			o = info.Uses[id]
+		}
+		v, ok := o.(*types.Var)
+		if !ok || v.IsField() {
+			return nil
+		}
+		pk := optPkg(v.Type())
+		if pk == "" {
+			return nil
+		}
+		ov, ok := vars[v]
+		if !ok {
+			ov = &optVar{obj: v, pkg: pk}
+			vars[v] = ov
+			order = append(order, ov)
+		}
+		return ov
+	}
+	for _, f := range p.Syntax {
+		if !isRepoFile(e.r.Fset, f) {
+			continue
+		}
+		ast.Inspect(f, func(n ast.Node) bool {
+			switch s := n.(type) {
+			case *ast.AssignStmt:
+				if len(s.Lhs) != len(s.Rhs) {
+					return true
+				}
+				for i, l := range s.Lhs {
+					switch lv := unparen(l).(type) {
+					case *ast.Ident:
+						if ov := get(lv); ov != nil {
+							ov.ndefs++
+							ov.def = s.Rhs[i]
+						}
+					case *ast.SelectorExpr:
+						if id, ok := unparen(lv.X).(*ast.Ident); ok {
+							if ov := get(id); ov != nil {
+								if sel, ok := info.Selections[lv]; ok && sel.Kind() == types.FieldVal {
+									ov.mods = append(ov.mods, lv.Sel.Name+"="+c16Value(e, p, s.Rhs[i]))
+								}
+							}
+						}
+					}
+				}
+			case *ast.ValueSpec:
+				for i, id := range s.Names {
+					if ov := get(id); ov != nil {
+						ov.ndefs++
+						if len(s.Values) == len(s.Names) {
+							ov.def = s.Values[i]
+						}
+					}
+				}
+			}
+			return true
+		})
+	}
+	var name func(ov *optVar, depth int) string
+	name = func(ov *optVar, depth int) string {
+		if ov.id != "" || depth > 5 {
+			return ov.id
+		}
+		base := "?"
+		if ov.ndefs == 1 && ov.def != nil {
+			switch d := unparen(ov.def).(type) {
+			case *ast.CompositeLit:
+				base = ov.pkg
+			case *ast.Ident:
+				if src, ok := vars[info.Uses[d]]; ok && src != ov {
+					ov.parent = src
+					base = name(src, depth+1)
+				}
+			}
+		} else if ov.def == nil && ov.ndefs == 1 {
+			base = ov.pkg // var x pkg.Minifier
+		}
+		mods := append([]string(nil), ov.mods...)
+		sort.Strings(mods)
+		ov.id = base
+		if len(mods) > 0 {
+			ov.id += "+" + strings.Join(mods, ",")
+		}
+		return ov.id
+	}
+	var out []string
+	seen := map[string]int{}
+	for _, ov := range order {
+		id := name(ov, 0)
+		seen[id]++
+		if seen[id] > 1 {
+			ov.id = fmt.Sprintf("%s#%d", id, seen[id])
+		}
+	}
+	for _, ov := range order {
+		desc := "?"
+		switch {
+		case ov.ndefs != 1:
+			desc = fmt.Sprintf("assigned %d times", ov.ndefs)
+		case ov.parent != nil:
+			desc = "copy of " + ov.parent.id
+		case ov.def == nil:
+			desc = ov.pkg + ".Minifier{}"
+		default:
+			if cl, ok := unparen(ov.def).(*ast.CompositeLit); ok {
+				var fs []string
+				for _, el := range cl.Elts {
+					if kv, ok := el.(*ast.KeyValueExpr); ok {
+						fs = append(fs, types.ExprString(kv.Key)+": "+c16Value(e, p, kv.Value))
+					} else {
+						fs = append(fs, c16Value(e, p, el))
+					}
+				}
+				desc = ov.pkg + ".Minifier{" + strings.Join(fs, ", ") + "}"
+			} else {
+				desc = c16Value(e, p, ov.def)
+			}
+		}
+		out = append(out, fmt.Sprintf("def %s := %s", ov.id, desc))
+	}
+	for _, f := range p.Syntax {
+		if !isRepoFile(e.r.Fset, f) {
+			continue
+		}
+		ast.Inspect(f, func(n ast.Node) bool {
+			call, ok := n.(*ast.CallExpr)
+			if !ok || len(call.Args) != 2 {
+				return true
+			}
+			fn := calleeOf(info, call)
+			if fn == nil || !strings.HasPrefix(shortFuncName(fn), "minify.M.Add") {
+				return true
+			}
+			arg := unparen(call.Args[1])
+			if u, ok := arg.(*ast.UnaryExpr); ok && u.Op == token.AND {
+				arg = unparen(u.X)
+			}
+			id, ok := arg.(*ast.Ident)
+			if !ok {
+				return true
+			}
+			ov, ok := vars[info.Uses[id]]
+			if !ok {
+				return true
+			}
+			out = append(out, fmt.Sprintf("reg %s -> %s", c16Value(e, p, call.Args[0]), ov.id))
+			return true
+		})
+	}
+	sort.Strings(out)
+	return out, nil
+}
+
+// c16Value: a constant by value, regexp.MustCompile(<constant>) as `regexp "<pattern>"`, otherwise the source text
+func c16Value(e *tenv, p *packages.Package, x ast.Expr) string {
+	if s, err := e.Bytes(p, x); err == nil {
+		if t := p.TypesInfo.TypeOf(x); t != nil && isString(t) {
+			return fmt.Sprintf("%q", s)
+		}
+	}
+	if b, err := e.Bool(p, x); err == nil {
+		return fmt.Sprint(b)
+	}
+	if n, err := e.Int(p, x); err == nil {
+		return fmt.Sprint(n)
+	}
+	if call, ok := unparen(x).(*ast.CallExpr); ok && len(call.Args) == 1 {
+		if fn := calleeOf(p.TypesInfo, call); fn != nil && fn.Pkg() != nil && fn.Pkg().Path() == "regexp" && fn.Name() == "MustCompile" {
+			if s, err := e.Bytes(p, call.Args[0]); err == nil {
+				return fmt.Sprintf("regexp %q", s)
+			}
+		}
+	}
+	if cl, ok := unparen(x).(*ast.CompositeLit); ok {
+		var fs []string
+		for _, el := range cl.Elts {
+			if kv, ok := el.(*ast.KeyValueExpr); ok {
+				fs = append(fs, types.ExprString(kv.Key)+": "+c16Value(e, p, kv.Value))
+			} else {
+				fs = append(fs, c16Value(e, p, el))
+			}
+		}
+		return types.TypeString(p.TypesInfo.TypeOf(cl), func(q *types.Package) string { return q.Name() }) + "{" + strings.Join(fs, ", ") + "}"
+	}
+	return nodeText(e.r.Fset, x)
 }
 
 // ---------------------------------------------------------------------------------------------------------------------
